@@ -1,21 +1,9 @@
 (* C15: refutation witnesses of the recorded findings (records, not gates). *)
 From V Require Import lib.Base lib.Regex lib.RegexDecide lib.Utf8 gen.GenRegex spec.CssSyntax model.Url model.Style spec.StyleSpec.
 
-(* D11: Color "red,blue" is emitted verbatim although ',' is outside the documented alphabet *)
-Lemma C15_regular_values_refuted : exists p fname css v,
-  field_by_name p fname = Some (PStr v) /\ v <> [] /\
-  doc_emit p (fname, css, 3) = css ++ [58] ++ v ++ [59] /\ doc_regular v = false /\ finding_D11 v = true.
-Proof.
-  exists [PList []; PList []; PStr []; PStr []; PStr []; PStr []; PStr []; PStr (B "red,blue")],
-    (B "Color"), (B "color"), (B "red,blue").
-  vm_compute. repeat split; try reflexivity. discriminate.
-Qed.
-
-(* D11 at its source: the regenerated pattern is not within the documented language; witness "," *)
-Lemma C15_bridge_regular_exact_refuted :
-  bridge_regular_exact = false /\
-  go_match G_safeRegularPropertyValuePattern [44] = true /\ accepts S_doc_regular [44] = false.
-Proof. vm_compute. repeat split; reflexivity. Qed.
+(* D11 (',' accepted in plain values through the range [+-.]) was repaired by a fix: commit; its
+   refutation witnesses were removed with it: the full theorem C15_regular_values now holds and the
+   exact bridge bridge_regular_exact is a proved side condition (proofs/StyleExactFacts.v). *)
 
 (* D25: "< x": the space after the escaped '<' is swallowed by the CSS hex escape *)
 Lemma C15_css_escape_round_trip_refuted : exists s,
